@@ -16,10 +16,12 @@ def run(rep, prog, tier):
     seek_danger_typestate(rep, prog, "C13-R1")
     rep.rule("C13-R2", "memo invalidation: when the `score()` of a scorer type both stores into and reads a field of `self` (a memo of the score of the current document), every DocSet method of that type that moves a sub-docset (advance / seek / seek_danger / fill_buffer / ...) stores into that field on every path that moved, so that the score read at a document does not depend on how the document was reached")
     rep.rule("C13-R3", "forwarding agreement: a DocSet / Scorer method of a wrapper type whose body consists of one call of a DocSet / Scorer protocol method on a field of `self` with its own parameters forwards to the method of the same name (a `seek` that forwards to `advance`, or a `doc` that forwards to `size_hint`, observes another sequence)")
-    rep.not_decided += ["order and content of the documents enumerated by any iterator, seek arithmetic, window horizons, block boundaries, TERMINATED stickiness (values over programs of calls)"]
+    rep.not_decided += ["order and content of the documents enumerated by any iterator, seek arithmetic, window horizons, block boundaries (values over programs of calls)"]
     memo_invalidation(rep, prog, "C13-R2")
     rep.rule("C13-R4", "sibling reset agreement: when a DocSet type's `advance` and `seek` both reset a field of self (store into it or clear it: position-dependent state such as a cache of the current document's positions), every other moving method the type overrides (seek_danger, fill_buffer, fill_bitset_block) resets it too, directly or through a method of self it calls")
     sibling_resets(rep, prog, "C13-R4")
+    rep.rule("C13-R5", "sticky end: when `seek` / `seek_danger` of a docset that keeps cursor state besides its current doc (fields that advance() reads and a moving method writes) stores TERMINATED into the current doc, the same path also writes a cursor field or goes through a moving method of self — unless advance() starts by testing the current doc against TERMINATED. Otherwise the next advance() resumes from the old cursor: 'once the end is reached every further call keeps reporting the end'")
+    sticky_end(rep, prog, "C13-R5")
     forwarding(rep, prog, "C13-R3")
 
 
@@ -180,6 +182,80 @@ def sibling_resets(rep, prog, R):
                       "(a cache of the current document's data) survives the move, the docset answers for the new document with the old document's data"
                       % (ty, m, ", self".join(missing)), site=prog.bodies[ms[m]].span)
     rep.floor(R, "DocSet types whose advance and seek reset a common field", n_types, 6)
+
+
+def sticky_end(rep, prog, R):
+    """declaring the end also retires the cursor"""
+    from ..mergecov import Aliases, fmt_path
+    TERM = "2147483647"
+    types = {}
+    for n in prog.bodies:
+        m = re.match(r"^<(.+) as tantivy::docset::DocSet>::([a-z_]+)$", n)
+        if m:
+            types.setdefault(m.group(1), {})[m.group(2)] = n
+    nsites = 0
+    for ty, ms in sorted(types.items()):
+        if "advance" not in ms:
+            continue
+        tshort = ty.split("<")[0].split("::")[-1]
+        adv = prog.bodies[ms["advance"]]
+        aal = Aliases(adv, {1: "self"})
+        adv_uses = aal.uses()
+        adv_reads = {u[2][:1] for u in adv_uses if u[1] == "self" and u[0] in ("r", "rw", "mv") and u[2]}
+        moving_writes = set()
+        for m in ("advance", "seek", "seek_danger", "fill_buffer"):
+            if m in ms:
+                bb = prog.bodies[ms[m]]
+                moving_writes |= {u[2][:1] for u in Aliases(bb, {1: "self"}).uses() if u[1] == "self" and u[0] in ("w", "rw") and u[2]}
+        for m in ("seek", "seek_danger"):
+            if m not in ms:
+                continue
+            b = prog.bodies[ms[m]]
+            al = Aliases(b, {1: "self"})
+            for bi in b.normal_blocks():
+                for i, st in enumerate(b.stmts(bi)):
+                    if is_bare(st["d"]) or st.get("r") != "use" or not st.get("o") or str(st["o"][0].get("v")) != TERM:
+                        continue
+                    r = al.resolve(st["d"])
+                    if not r or r[0] != "self" or not r[1]:
+                        continue
+                    D = r[1][:1]
+                    cursor = (adv_reads & moving_writes) - {D}
+                    if not cursor:
+                        continue      # the current doc is the only state
+                    nsites += 1
+                    # is advance guarded by `doc == TERMINATED` at its entry?  (then the cursor does not matter)
+                    guarded = False
+                    t0 = adv.term(0)
+                    if t0["k"] == "switch":
+                        l0 = op_place(t0["on"])
+                        if l0 is not None:
+                            tr = trace_back(adv, place_local(l0))
+                            if tr and tr[-1][0] == "bin":
+                                bst = adv.stmts(tr[-1][2])[tr[-1][3]]
+                                vals = [str(o.get("v")) for o in bst.get("o", []) if op_place(o) is None]
+                                reads_d = any(aal.resolve(op_place(o)) == ("self", D) for o in bst.get("o", []) if op_place(o) is not None)
+                                guarded = TERM in vals and reads_d
+                    if guarded:
+                        rep.ok(R, "%s::%s declares the end; advance is guarded by the end marker" % (tshort, m), "advance() returns TERMINATED when doc == TERMINATED", site=site(b, bi))
+                        continue
+                    # blocks on some path entry -> store -> return
+                    before = {x for x in b.reachable((0,)) if bi in b.reachable((x,))}
+                    after = b.reachable((bi,))
+                    region = before | after
+                    touches = False
+                    for u in al.uses():
+                        if u[1] == "self" and u[0] in ("w", "rw") and u[2] and u[2][:1] in cursor and u[3] in region:
+                            touches = True
+                    for cb, t in b.calls():
+                        if cb in region and t.get("args"):
+                            rr = al.resolve(op_place(t["args"][0]))
+                            if rr == ("self", ()) and (t.get("f") or "").startswith(DS):
+                                touches = True      # a moving method of self
+                    rep.check(touches, R, "%s::%s retires the cursor when it declares the end" % (tshort, m), "cursor fields %s" % sorted(fmt_path(x) for x in cursor),
+                              "`%s`::%s stores TERMINATED into self%s on a path that writes none of the cursor fields advance() continues from (self%s) and does not go through advance(): "
+                              "the next advance() resumes the enumeration after the end was reported — the end is not sticky" % (ty, m, fmt_path(D), ", self".join(sorted(fmt_path(x) for x in cursor))), site=site(b, bi))
+    rep.floor(R, "seek paths that declare the end on a docset with cursor state", nsites, 1)
 
 
 def forwarding(rep, prog, R):
